@@ -61,9 +61,19 @@ def check(prog, ctx):
         sx.exec(s, [stb])
     # one Newton iteration
     entry, cond, live, done, n0 = sx.loop_step(whiles[0], stb)
-    zs = [(k, v) for k, v in entry.items() if isinstance(v, Symbol) and str(v).startswith('z@')]
+    # the Newton iterate, by role: the scalar carried by the Newton loop that the recurrence loop reads but does not write
+    inner_w = set(sx.assigned_in(inner[0]).keys())
+    for d_ in (inner[0].get('init') or {}).get('decls', []) if (inner[0].get('init') or {}).get('k') == 'Decl' else []:
+        inner_w.add(d_['id'])
+    inner_r = set()
+    for x_ in walk_stmts(inner[0]):
+        for e_ in stmt_exprs(x_):
+            for n_ in walk_expr(e_):
+                if n_.get('k') == 'Ref' and n_.get('id'):
+                    inner_r.add(sx.lv_key(n_))
+    zs = [(k, v) for k, v in entry.items() if isinstance(v, Symbol) and k in inner_r and k not in inner_w]
     if len(zs) != 1:
-        raise Undecided('Newton iterate not identified')
+        raise Undecided('Newton iterate not identified (%d candidates)' % len(zs))
     kz, z = zs[0]
     # recurrence loop inside: executed within loop_step as a havoc'd loop; analyse it separately
     wbody = whiles[0]['body']['body']
@@ -75,7 +85,8 @@ def check(prog, ctx):
         sx.exec(s, [stw])
     e2, c2, l2, d2, m0 = sx.loop_step(inner[0], stw)
     ents = {k: v for k, v in e2.items() if isinstance(v, Symbol)}
-    jv = [v for k, v in ents.items() if str(v).startswith('j@')]
+    clj0 = sx.counted(inner[0], stw)
+    jv = [v for k, v in ents.items() if clj0 is not None and k == clj0[0]['id']]
     if len(l2) != 1 or len(jv) != 1:
         raise Undecided('recurrence loop body not straight-line')
     j = jv[0]
